@@ -87,7 +87,7 @@ TABLE = [
     ('R11', 'std::cmp::min -> vmin', re.compile(r'\bstd::cmp::min\('), 'vmin('),
     ('R11', 'std::mem::replace -> vreplace', re.compile(r'\bstd::mem::replace\('), 'vreplace('),
     ('R11', 'std::mem::take -> vtake_vec', re.compile(r'\bstd::mem::take\('), 'vtake_vec('),
-    ('R4', 'enum header <R: Read> -> <R: VStream>', re.compile(r'<R: Read>'), '<R: VStream>'),
+    ('R4', 'enum header <R: Read> -> <R: VRead>', re.compile(r'<R: Read>'), '<R: VRead>'),
     ('R4', 'brotli::Decompressor<Take<R>> -> VDecompressor<R>', re.compile(r'brotli::Decompressor<Take<(\w+)>>'), r'VDecompressor<\1>'),
     ('R4', 'enum header <W: Write> -> <W: VSink>', re.compile(r'<W: Write>'), '<W: VSink>'),
     ('R4', 'brotli::CompressorWriter<WriterWithCount<W>> -> VCompressorWriter<W>', re.compile(r'brotli::CompressorWriter<WriterWithCount<(\w+)>>'), r'VCompressorWriter<\1>'),
